@@ -2,6 +2,7 @@ package main
 
 import (
 	"bytes"
+	"crypto/sha256"
 	"encoding/base64"
 	"encoding/json"
 	"fmt"
@@ -10,6 +11,7 @@ import (
 	"time"
 
 	"github.com/Oneledger/protocol/action"
+	"github.com/Oneledger/protocol/data/keys"
 
 	"verif/catalogue"
 	"verif/explore"
@@ -31,6 +33,7 @@ type c05Job struct {
 	Delay int    // blocks between T's block and the resubmission (1 or 3)
 	Path  string // "check" | "deliver"
 	Lag   int    // tx index lag in blocks
+	Sig   string // "" / "plain" | "prehash": how the original was signed
 }
 
 type c05Res struct {
@@ -151,6 +154,18 @@ func reencodings(t *harness.TxSpec) []reenc {
 			}
 		}
 	}
+	// the signature bytes themselves are not covered by any signature: trailing bytes
+	{
+		stx := t.Signed()
+		for i := range stx.Signatures {
+			for _, extra := range [][]byte{{0x00}, {0x01, 0x02}} {
+				c := stx
+				c.Signatures = append([]action.Signature(nil), stx.Signatures...)
+				c.Signatures[i].Signed = append(append([]byte(nil), stx.Signatures[i].Signed...), extra...)
+				add(fmt.Sprintf("sig[%d]-trailing-%d-bytes", i, len(extra)), "signature-trailing-bytes", c.SignedBytes())
+			}
+		}
+	}
 	// unsigned parts of the signature list
 	st := t.Signed()
 	if len(st.Signatures) > 0 {
@@ -172,7 +187,7 @@ func reencodings(t *harness.TxSpec) []reenc {
 			b := rebuildInOrder(orig, top2)
 			add("signature-object-extra-field", "extra-field", b)
 		}
-		if t.SignFn != nil {
+		if t.Type == action.OLVM {
 			// sender-recovery signature: the Signer key is not used for authentication
 			c := st
 			c.Signatures = append([]action.Signature(nil), st.Signatures...)
@@ -181,6 +196,30 @@ func reencodings(t *harness.TxSpec) []reenc {
 		}
 	}
 	return out
+}
+
+// withSigMode returns the spec signed in the given mode: "plain", or "prehash" = the hardware-wallet
+// form the key handlers accept for ED25519 keys (hash tag + signature over the digest of the message).
+func withSigMode(t *harness.TxSpec, mode string) *harness.TxSpec {
+	if mode != "prehash" || t.SignFn != nil {
+		return t
+	}
+	c := *t
+	signers := t.Signers
+	c.SignFn = func(raw action.RawTx) []action.Signature {
+		msg := raw.RawBytes()
+		var out []action.Signature
+		for _, a := range signers {
+			if a.Pub.KeyType == keys.ED25519 {
+				d := sha256.Sum256(msg)
+				out = append(out, action.Signature{Signer: a.Pub, Signed: append([]byte("SHA256"), a.Sign(d[:])...)})
+			} else {
+				out = append(out, action.Signature{Signer: a.Pub, Signed: a.Sign(msg)})
+			}
+		}
+		return out
+	}
+	return &c
 }
 
 func mustJSON(v interface{}) json.RawMessage {
@@ -225,7 +264,7 @@ func c05Exec(j c05Job) c05Res {
 	if err != nil {
 		return c05Res{Err: err.Error()}
 	}
-	t := h.Blocks[h.Target].Txs[0]
+	t := withSigMode(h.Blocks[h.Target].Txs[0], j.Sig)
 	res := reencodings(t)
 	if j.Op >= len(res) {
 		return c05Res{Err: "operator out of range"}
@@ -233,7 +272,9 @@ func c05Exec(j c05Job) c05Res {
 	wire := res[j.Op].wire
 	orig := t.Bytes()
 	// (1) the re-encoding must carry the same signed content and be admitted on a fresh state
-	if j.Op > 0 {
+	if j.Op > 0 && res[j.Op].class != "signature-trailing-bytes" && res[j.Op].class != "unsigned-field" {
+		// pure re-encodings must parse to the same content; variants of parts that no signature covers
+		// (signature bytes, unused signer key) differ by construction and only have to be admitted
 		if !sameParsed(wire, orig) {
 			return c05Res{Skip: "parsed content differs"}
 		}
@@ -391,17 +432,26 @@ func c05(args []string) int {
 			continue
 		}
 		kinds[sc.Kind] = true
-		res := reencodings(h.Blocks[h.Target].Txs[0])
-		for op, r := range res {
-			classes[r.class] = true
-			classOf[r.name] = r.class
-			for _, delay := range []int{1, 3} {
-				for _, path := range []string{"check", "deliver"} {
-					for _, lag := range []int{0, 1} {
-						if f.Tier == "quick" && delay == 3 && lag == 1 {
-							continue
+		for _, mode := range []string{"plain", "prehash"} {
+			base := h.Blocks[h.Target].Txs[0]
+			if mode == "prehash" && (base.SignFn != nil || len(base.Signers) == 0 || base.Signers[0].Pub.KeyType != keys.ED25519) {
+				continue
+			}
+			res := reencodings(withSigMode(base, mode))
+			for op, r := range res {
+				classes[r.class] = true
+				classOf[r.name] = r.class
+				for _, delay := range []int{1, 3} {
+					for _, path := range []string{"check", "deliver"} {
+						for _, lag := range []int{0, 1} {
+							if f.Tier == "quick" && delay == 3 && lag == 1 {
+								continue
+							}
+							if mode == "prehash" && (lag == 1 || (f.Tier == "quick" && delay == 3)) {
+								continue // the index-lag dimension is covered by the plain originals
+							}
+							jobList = append(jobList, c05Job{Scn: sc.ID(), Op: op, Name: r.name, Delay: delay, Path: path, Lag: lag, Sig: mode})
 						}
-						jobList = append(jobList, c05Job{Scn: sc.ID(), Op: op, Name: r.name, Delay: delay, Path: path, Lag: lag})
 					}
 				}
 			}
@@ -440,13 +490,16 @@ func c05(args []string) int {
 			skipReasons[k]++
 			return
 		}
-		distinct[fmt.Sprintf("%s|%s|%d|%s|%d", j.Scn, j.Name, j.Delay, j.Path, j.Lag)] = true
+		distinct[fmt.Sprintf("%s|%s|%d|%s|%d|%s", j.Scn, j.Name, j.Delay, j.Path, j.Lag, j.Sig)] = true
 		if done%97 == 0 {
 			rep.Sample(map[string]interface{}{"scenario": j.Scn, "reencoding": j.Name, "resubmitted_after_blocks": j.Delay, "path": j.Path, "index_lag": j.Lag, "code": r.Code, "log": r.Log, "took_effect_again": r.Replayed})
 		}
 		if r.Replayed {
 			replayed++
 			sig := fmt.Sprintf("C05|took-effect-twice|kind=%s|reenc=%s|path=%s|index-lag=%d", kind, classOf[j.Name], j.Path, j.Lag)
+			if j.Sig == "prehash" {
+				sig += "|signed=prehash"
+			}
 			rep.Violation(sig, fmt.Sprintf("%s executed, then resubmitted as %q %d block(s) later via %s (index lag %d): %s", kind, j.Name, j.Delay, j.Path, j.Lag, r.Detail), j)
 		} else {
 			rejected++
